@@ -18,8 +18,8 @@ RULE = (
     "absent or an observable (quick: outer C in {True, p}, I = xs; thorough: all C and I and bodies "
     "'observable; shape'); level 3 = guarded exits: every loop kind whose body is [if C: L1 [else: L3]; L2] "
     "over all loop leaves L1, L2, with and without a loop else; each shape is followed by an observable statement inside def f(p, q, xs) and run under all 8 "
-    "valuations with exceptions printed; shapes whose original does not terminate are dropped (counted). pointless "
-    "family: 48 expression statements (pure / user call / unknown name / call hidden in comprehension, conditional "
+    "valuations with exceptions printed; level 4 = for loops over 30 iterables of every kind the constant evaluator may know (empty / non-empty containers, lazy iterators, non-iterables) and with blocks over 5 context managers (exception-swallowing ones included) x raising / returning bodies; shapes whose original does not terminate are dropped (counted). pointless "
+    "family: 70 expression statements (incl. every part of a slice) and 20 raising statements x 7 nestings below a try body; originally 48 expression statements (pure / user call / unknown name / call hidden in comprehension, conditional "
     "expression, f-string, subscript, attribute, default argument / raising builtin call inside try). callable family: a bare "
     "call cb() where cb is one of 17 user definitions (pure / printing / raising / effect after an if-return / class with "
     "and without a printing (inherited) __init__ / lambda / alias of print / generator) x 18 ways the name is also bound "
